@@ -226,6 +226,10 @@ def run_shard(spec, R):
         if "scalar_series" in kinds:
             out.append(("scalar_series", darsia.ScalarImage(data((3,)), dimensions=list(dims), series=True, time=[0.0, 1.0, 2.0])))
         if "optical_series" in kinds:
+            # (every second time: a series that holds a single time step so far)
+            if rng.random() < 0.5:
+                out.append(("optical_series", darsia.OpticalImage(data((1, 3)), dimensions=list(dims), color_space="RGB", series=True, time=[0.0])))
+                return out
             out.append(("optical_series", darsia.OpticalImage(data((2, 3)), dimensions=list(dims), color_space="RGB", series=True, time=[0.0, 1.5])))
         return out
 
@@ -379,6 +383,9 @@ def run_shard(spec, R):
                 fphoto = rng.random(pshape + (3,)).astype(np.float32)
                 drive("illumination", ill, [("array3", fphoto.copy()), ("optical", darsia.OpticalImage(fphoto.copy(), dimensions=dimsp, color_space="RGB")),
                                             ("optical_series", darsia.OpticalImage(np.stack([fphoto, flat], axis=2), dimensions=dimsp, color_space="RGB", series=True, time=[0.0, 1.0]))])
+                # the used object is configured anew - with unit scaling, i.e. neutral parameters - and applied again
+                ill.local_scaling = [darsia.ScalarImage(np.ones(pshape), dimensions=dimsp) for _ in ill.local_scaling]
+                drive("illumination_reconfigured_to_unit_scaling", ill, [("array3", fphoto.copy()), ("optical", darsia.OpticalImage(fphoto.copy(), dimensions=dimsp, color_space="RGB"))], neutral=True)
             # ---- transformation corrections (fitted)
             simg = darsia.ScalarImage(rng.random(shape), dimensions=[shape[0] * 0.01, shape[1] * 0.01])
             cs = simg.coordinatesystem
